@@ -88,6 +88,7 @@ struct Defs {
   21: byte dby = 0x7f
   22: optional i64 ol64 = CNeg
   23: optional inc.Level ilv = inc.Level.High
+  40: optional binary obd = "bb"
   24: i32 dref = inc.IncNum
   25: optional Ident oid = 99
   26: i32 d2 = inc2.CInt
